@@ -89,3 +89,14 @@ package nsx
 //vc:  invariant[C04] 3 "for i := 1; ; i++" @ruleIdsUntouchedWhileSearching forall q *nsxRule :: { q.Id } q.Id == loopold(q.Id)
 //vc:  ensures[C04] @deviceRuleIdsKnown forall j int :: { a[j] } 0 <= j && j < len(a) ==> (old(a[j].Id) in aIds) && aIds[old(a[j].Id)]
 //vc:  ensures[C04] @netspocRuleIdsFree forall k int :: { b[k] } 0 <= k && k < len(b) ==> !((b[k].Id in aIds) && aIds[b[k].Id])
+
+// ---- C07: objects whose id lacks the Netspoc prefix never enter the device configuration ----
+// Whatever approve deletes or changes on the NSX manager is taken from the
+// device configuration assembled here (diffConfig removes unused groups and
+// services of that configuration, patches its rules); an object that is not
+// loaded cannot be touched. Policies are fetched one by one, groups and
+// services are filtered page by page.
+//vc:func (*State).LoadDevice
+//vc:  assert[C07] at "s.sendRequest("#2 @onlyNetspocPoliciesFetched strings.HasPrefix(result.Id, "Netspoc")
+//vc:func (*State).getRawJSON
+//vc:  assert[C07] at "data = append(data, result)" @onlyNetspocObjectsKept strings.HasPrefix(id.Id, "Netspoc")
